@@ -6,13 +6,14 @@
 (* same denotation term (repeated calls, calls interleaved with other      *)
 (* arguments, re-created function objects, the other jit flag, other       *)
 (* processes / hash seeds); fingerprints of the model object and of the    *)
-(* params passed in must not change.                                       *)
+(* params passed in must not change, nor may any params object the user    *)
+(* still holds (the filled templates, Api!held).                           *)
 (***************************************************************************)
 EXTENDS Api, Json, IOUtils
 
 Cases == JsonDeserialize(IOEnv.CASES)
 VARIABLES cid, l, verdict, seen      \* seen: term |-> digest (as a set of pairs)
-tvars == <<cid, l, verdict, seen, funcs, hist, hidden>>
+tvars == <<cid, l, verdict, seen, funcs, hist, hidden, held>>
 C == Cases[cid]
 Ev == C.events[l]
 Running == verdict[1] = "run"
@@ -23,16 +24,20 @@ TInit == cid \in 1..Len(Cases) /\ l = 1 /\ verdict = <<"run">> /\ seen = {} /\ A
 \* the Api action that the recorded event claims to be
 ApiStep(e) ==
   CASE e.op = "create" -> Create(e.model, e.target, e.jit)
-    [] e.op = "solve" -> CallSolve(e.f, e.p)
-    [] e.op = "simulate" -> CallSimulate(e.f, e.p, e.init, e.seed, e.vfrom)
-    [] e.op = "solve_and_simulate" -> CallSolveAndSimulate(e.f, e.p, e.init, e.seed)
+    [] e.op = "fill" -> FillTemplate(e.f, e.p)
+    [] e.op = "solve" -> CallSolve(e.f, e.p, e.via)
+    [] e.op = "simulate" -> CallSimulate(e.f, e.p, e.init, e.seed, e.vfrom, e.via)
+    [] e.op = "solve_and_simulate" -> CallSolveAndSimulate(e.f, e.p, e.init, e.seed, e.via)
 
 Judge(e, term) ==
   IF e.op = "create" THEN
      (IF e.model_fp_before # e.model_fp_after THEN Fail("model-mutated", ToString(<<"create", l>>)) ELSE <<"run">>)
+  ELSE IF e.op = "fill" THEN <<"run">>
   ELSE IF e.error THEN Fail("crash", ToString(<<e.op, e.cls, e.msg>>))
   ELSE IF e.model_fp_before # e.model_fp_after THEN Fail("model-mutated", ToString(<<e.op, l>>))
   ELSE IF e.params_fp_before # e.params_fp_after THEN Fail("params-mutated", ToString(<<e.op, l>>))
+  \* the objects the user holds (filled templates of all function objects) are not written to by the call
+  ELSE IF e.held_fp_before # e.held_fp_after THEN Fail("held-params-mutated", ToString(<<e.op, l, "f", e.f, "p", e.p>>))
   ELSE IF e.args_fp_before # e.args_fp_after THEN Fail("arguments-mutated", ToString(<<e.op, l>>))
   ELSE IF \E pr \in seen : pr[1] = term /\ pr[2] # e.digest
      THEN Fail("same-term-different-result", ToString(<<"event", l, "op", e.op, "f", e.f, "jit", e.jit, "term", term>>))
@@ -43,7 +48,7 @@ TStep ==
   /\ ApiStep(Ev)
   /\ LET term == hist'[Len(hist')].term
      IN /\ verdict' = Judge(Ev, term)
-        /\ seen' = IF Ev.op = "create" \/ Ev.error THEN seen ELSE seen \cup {<<term, Ev.digest>>}
+        /\ seen' = IF Ev.op \in {"create", "fill"} \/ Ev.error THEN seen ELSE seen \cup {<<term, Ev.digest>>}
   /\ l' = l + 1 /\ UNCHANGED cid
 \* results of the same calls in other processes (other PYTHONHASHSEED): compared through the term
 TExtern ==
@@ -54,14 +59,14 @@ TExtern ==
                    ELSE IF \E pr \in seen : pr[1] = term /\ pr[2] # x.digest
                    THEN Fail("other-process-different-result", ToString(<<"hashseed", x.hashseed, "call", x.ref, "term", term>>))
                    ELSE <<"run">>
-  /\ l' = l + 1 /\ UNCHANGED <<cid, seen, funcs, hist, hidden>>
+  /\ l' = l + 1 /\ UNCHANGED <<cid, seen, funcs, hist, hidden, held>>
 TDone ==
   /\ Running /\ l > Len(C.events) + Len(C.extern)
-  /\ verdict' = <<"ok">> /\ UNCHANGED <<cid, l, seen, funcs, hist, hidden>>
+  /\ verdict' = <<"ok">> /\ UNCHANGED <<cid, l, seen, funcs, hist, hidden, held>>
 \* a recorded event that is not an enabled Api action: the trace is not a behaviour of the specification
 TStuck ==
   /\ Running /\ l <= Len(C.events) /\ ~ENABLED ApiStep(Ev)
-  /\ verdict' = Fail("not-an-api-behaviour", ToString(<<l, Ev.op>>)) /\ UNCHANGED <<cid, l, seen, funcs, hist, hidden>>
+  /\ verdict' = Fail("not-an-api-behaviour", ToString(<<l, Ev.op>>)) /\ UNCHANGED <<cid, l, seen, funcs, hist, hidden, held>>
 TNext == TStep \/ TExtern \/ TDone \/ TStuck
 TSpec == TInit /\ [][TNext]_tvars
 Report == (verdict[1] # "run") => PrintT(<<"VERDICT", ToJson([cid |-> C.cid, v |-> verdict, calls |-> Len(hist), terms |-> Cardinality({pr[1] : pr \in seen})])>>)
